@@ -568,3 +568,7 @@ def run(ctx):
     rule_d(ctx, ctx.roles)
     rule_e(ctx, ctx.roles)
     rule_f(ctx, ctx.roles)
+    if ctx.cfg == "default":
+        from ..fixtures import detectors_alive
+        ctx.rule("C12-z", "positive example: the panic scan finds the planted bounds check, unwrap and explicit panic in fixtures/")
+        detectors_alive(ctx, "C12-z", {"panic"})
